@@ -40,10 +40,22 @@ pub struct World<'a> {
     pub inputs: Vec<&'static str>,
     /// attach `verif_state()` of plain iterators to every observed record
     pub log_state: bool,
+    /// number of `next` calls made so far (rotation over equivalent public calls)
+    pub calls: usize,
 }
 
+/// A match as the specification sees it: [token type, start, end]. The other accessors of `Match`
+/// must agree with these three (span, range, len, is_empty); if they do not, a fourth element
+/// makes the result unlike anything the specification admits.
 fn tok(m: &Match) -> Value {
-    json!([crate::ttmap::abs(m.token_type()), m.start(), m.end()])
+    let (s, e) = (m.start(), m.end());
+    let consistent = m.span().start == s && m.span().end == e && m.range() == (s..e) && e >= s && m.len() == e - s && m.is_empty() == (s == e)
+        && m.span().range() == (s..e) && m.span().len() == e - s;
+    if consistent {
+        json!([crate::ttmap::abs(m.token_type()), s, e])
+    } else {
+        json!([crate::ttmap::abs(m.token_type()), s, e, "accessors of Match disagree"])
+    }
 }
 
 pub fn panic_msg(e: Box<dyn std::any::Any + Send>) -> String {
@@ -58,7 +70,7 @@ pub fn panic_msg(e: Box<dyn std::any::Any + Send>) -> String {
 
 impl<'a> World<'a> {
     pub fn new(syms: &'a [char]) -> Self {
-        World { syms, scanners: vec![], twins: vec![], iters: vec![], inputs: vec![], log_state: false }
+        World { syms, scanners: vec![], twins: vec![], iters: vec![], inputs: vec![], log_state: false, calls: 0 }
     }
 
     pub fn word(&self, w: &Value) -> String {
@@ -157,7 +169,12 @@ impl<'a> World<'a> {
             }
             "next" => {
                 let (res, mode) = match &mut self.iters[h.unwrap()] {
-                    It::Plain(f) => (f.next().map(|m| tok(&m)), f.current_mode()),
+                    // the two public spellings of the same call, alternating
+                    It::Plain(f) => {
+                        self.calls += 1;
+                        let m = if self.calls % 2 == 0 { f.next() } else { f.next_match() };
+                        (m.map(|m| tok(&m)), f.current_mode())
+                    }
                     It::Pos(f) => (f.next().map(|m| json!([crate::ttmap::abs(m.token_type()), m.start(), m.end()])), f.current_mode()),
                 };
                 json!({"res": res.unwrap_or(json!([])), "mode": mode})
